@@ -165,8 +165,11 @@ class NpProxy:
         return _np.asarray(x, dtype=dtype, **kw)
 
     def array(self, x, dtype=None, **kw):
-        a = _np.array(x, **kw) if dtype is None else _np.array(x, dtype=dtype, **kw)
-        return a
+        a = _np.array(x, **kw)
+        if a.dtype == object and dtype in (float, _np.float64, 'float', 'float64'):
+            OVERRIDES_USED.add('np.asarray(x, dtype=float) -> value-preserving on symbolic (object) arrays')
+            return a
+        return a if dtype is None else _np.array(x, dtype=dtype, **kw)
 
     def isnan(self, x):
         OVERRIDES_USED.add('np.isnan -> concrete sentinel test (missing entries are the concrete float nan)')
